@@ -57,11 +57,15 @@ func valText(v any) string {
 		return "[1, \"a\"]"
 	case map[string]any:
 		return "{\"a\": 1}"
+	case unencodable:
+		return "[1, inf]"
 	}
 	return "nil"
 }
 
-var addVals = []any{nil, true, int64(5), 2.5, "s", "2021-05-27 06:54:14.760 UTC", []any{int64(1), "a"}, map[string]any{"a": int64(1)}}
+type unencodable struct{} // a list that JSON cannot encode: [1, inf]
+
+var addVals = []any{nil, true, int64(5), 2.5, "s", "2021-05-27 06:54:14.760 UTC", []any{int64(1), "a"}, map[string]any{"a": int64(1)}, unencodable{}}
 
 func allOps() []op {
 	var out []op
@@ -304,6 +308,8 @@ func apply(t rk.Failer, p *input.Point, o op) string {
 			case []any, map[string]any:
 				b, _ := json.Marshal(x)
 				want = string(b)
+			case unencodable:
+				want = nil // a collection without JSON text is stored as nil
 			}
 			if probe.Render(got) != probe.Render(want) {
 				return fmt.Sprintf("add_key(%s, %s): field holds %s, want %s", o.K, valText(o.V), probe.Render(got), probe.Render(want))
